@@ -420,6 +420,13 @@ class Evaluator(object):
                     r = self.cor(r, h)
                 return r if name == 'in' else self.cnot(r)
             return alg.opaque(name, (argkey(a), argkey(b)))
+        if isinstance(a, Tup) and isinstance(b, Tup) and name in ('eq', 'ne'):
+            if len(a.items) != len(b.items):
+                return Bool(name == 'ne')
+            r = Bool(True)
+            for x, y in zip(a.items, b.items):
+                r = self.cand(r, self.compare(ast.Eq(), x, y, node))
+            return r if name == 'eq' else self.cnot(r)
         if isinstance(a, Rat) and isinstance(b, Rat):
             d = a - b
             f = d.as_fraction()
@@ -1390,6 +1397,19 @@ class Evaluator(object):
             return self.matmul(a[0], a[1], node)
         if short == 'transpose' and len(a) == 1 and isinstance(a[0], Mat):
             return self.mat_transpose(a[0], node)
+        if short in ('diagflat', 'diag') and len(a) == 1 and isinstance(a[0], Mat):
+            m = a[0]
+            flat = None
+            if len(m.shape) == 1:
+                flat = list(m.data)
+            elif len(m.shape) == 2 and (m.shape[1] == 1 or m.shape[0] == 1 or short == 'diagflat'):
+                flat = [x for row in m.data for x in row]
+            elif len(m.shape) == 2 and short == 'diag':
+                n = min(m.shape)
+                return Mat([m.data[i][i] for i in range(n)], (n,))
+            if flat is not None:
+                n = len(flat)
+                return Mat([[flat[i] if i == j else C(0) for j in range(n)] for i in range(n)], (n, n))
         if short in ('identity', 'eye') and a and _const_int(a[0]) is not None:
             n = _const_int(a[0])
             return Mat([[C(1 if i == j else 0) for j in range(n)] for i in range(n)], (n, n))
